@@ -136,6 +136,15 @@ CHECKS = {
             "precision 16-20: written with the real writers into scratch files and read back with the real readers; shape, mask, "
             "folding, labels, comments and values (to the written precision; bit-exact for pickle) compared.",
             "file system of the scratch directory; gzip magic checked on the raw file", "DESIGN.md §2 C14"),
+    "C20": ("offline checker over call histories against fresh-interpreter evaluations (O-fresh, SHA-256 digests), hash-seed and memory-layout sweeps, byte snapshots of arguments and numpy.shares_memory at the call boundary",
+            "Histories of 2-40 calls drawn with repetition from a 97-entry catalogue of public calls (3 argument seeds each) so that memo "
+            "caches are hit cold, warm and in different fill orders; every distinct call re-evaluated alone in a fresh interpreter; whole "
+            "histories re-run under PYTHONHASHSEED 1/12345/random; the full catalogue cold-then-warm and (stateful entries; all in "
+            "thorough) against fresh runs; every array argument re-laid out five ways (Fortran, double transpose, stride-2 slice, negative "
+            "strides, offset buffer; ASan overlay in thorough); arguments byte-identical after the call; integrators return arrays that "
+            "do not share memory with their input.",
+            "layout variants are compared to 1e-11 (a different layout may reorder numpy reductions), everything else bitwise; only "
+            "catalogue functions are covered (listed in the evidence)", "DESIGN.md §2 C20"),
 }
 
 PENDING_REASON = "check not built yet in this round (design in DESIGN.md §2); no claim is made"
